@@ -64,7 +64,9 @@ def handle (tb : Tables) (c impl : T) : String :=
     -- error names the offender, and a refused load leaves the root as it was (C14).
     (match refuse.asBool, impl with
      | some true, .node "obs" [r, n, u] =>
-       if r == T.ofBool true && n == T.ofBool true && u == T.ofBool true then "ok" else "mismatch spec-bad (obs true true true)"
+       if r == T.ofBool true && n == T.ofBool true && u == T.ofBool true then "ok"
+       else if tb.impliedSchemaUnvalidated && r == T.ofBool false then "dev D105"
+       else "mismatch spec-bad (obs true true true)"
      | some false, .node "obs" [r, _, _] => if r == T.ofBool false then "ok" else "mismatch spec-bad (obs false true true)"
      | _, _ => "bad-op")
   | .node "c13" [_, defs] =>
@@ -100,6 +102,6 @@ def handle (tb : Tables) (c impl : T) : String :=
 def flags (tb : Tables) : List (String × Bool) :=
   let cfgCur := cfgCurOf tb
   [("D28", cfgCur.fieldDirUsesUnchecked), ("D29", cfgCur.argLocIsInputField), ("D43", cfgCur.dupScalarDropped), ("D43s", cfgCur.dupScalarOverScalar),
-   ("D44", cfgCur.dirArgWrapperAccepted), ("D45", cfgCur.subtypeNarrow), ("D78", cfgCur.dirRequiredUnchecked), ("D83", cfgCur.dirLoopByVisited), ("D89", cfgCur.dupMembersAccepted)]
+   ("D44", cfgCur.dirArgWrapperAccepted), ("D45", cfgCur.subtypeNarrow), ("D78", cfgCur.dirRequiredUnchecked), ("D83", cfgCur.dirLoopByVisited), ("D89", cfgCur.dupMembersAccepted), ("D105", tb.impliedSchemaUnvalidated)]
 
 end Ggql.Driver.C13
